@@ -50,6 +50,10 @@ FLAVOURS = {
 }
 FLAVOURS[9] = FLAVOURS[8] + (" Choose a site (file, function or library procedure) that NONE of the earlier changes listed above touched, "
                              "and say in meta.json how many candidate mutants you tried and how many survived the suite.")
+FLAVOURS[10] = FLAVOURS[9] + (" Assume a capable property-based / differential checker is already watching this property with generated "
+                               "programs and files; among your survivors pick the one such a checker is LEAST likely to have in its "
+                               "workload (a spelling, value, option or sequence nobody would think of generating), not the one with the "
+                               "biggest effect.")
 
 
 def main():
